@@ -70,94 +70,119 @@ func init() {
 					continue
 				}
 				n++
-				refreshed := false
-				inspectShallow(f.Body(), func(x ast.Node) bool {
-					ifs, ok := x.(*ast.IfStmt)
-					if !ok {
-						return true
-					}
-					asksPending := false
-					var condParts []ast.Node
-					condParts = append(condParts, ifs.Cond)
-					if ifs.Init != nil {
-						condParts = append(condParts, ifs.Init)
-					}
-					// booleans of the condition that are defined elsewhere in the function (tagIsPending := !tag.Uncertain.IsZero())
-					ast.Inspect(ifs.Cond, func(y ast.Node) bool {
-						if id, ok := y.(*ast.Ident); ok {
-							if o := info.Uses[id]; o != nil {
-								inspectShallow(f.Body(), func(z ast.Node) bool {
-									if as, ok := z.(*ast.AssignStmt); ok && len(as.Lhs) == len(as.Rhs) {
-										for i, l := range as.Lhs {
-											if identObj(info, l) == o {
-												condParts = append(condParts, as.Rhs[i])
+				refreshedIn := func(f *Fn) bool {
+					info := f.Pkg.TypesInfo
+					refreshed := false
+					inspectShallow(f.Body(), func(x ast.Node) bool {
+						ifs, ok := x.(*ast.IfStmt)
+						if !ok {
+							return true
+						}
+						asksPending := false
+						var condParts []ast.Node
+						condParts = append(condParts, ifs.Cond)
+						if ifs.Init != nil {
+							condParts = append(condParts, ifs.Init)
+						}
+						// booleans of the condition that are defined elsewhere in the function (tagIsPending := !tag.Uncertain.IsZero())
+						ast.Inspect(ifs.Cond, func(y ast.Node) bool {
+							if id, ok := y.(*ast.Ident); ok {
+								if o := info.Uses[id]; o != nil {
+									inspectShallow(f.Body(), func(z ast.Node) bool {
+										if as, ok := z.(*ast.AssignStmt); ok && len(as.Lhs) == len(as.Rhs) {
+											for i, l := range as.Lhs {
+												if identObj(info, l) == o {
+													condParts = append(condParts, as.Rhs[i])
+												}
+											}
+										}
+										return true
+									})
+								}
+							}
+							return true
+						})
+						for _, part := range condParts {
+							ast.Inspect(part, func(y ast.Node) bool {
+								if c, ok := y.(*ast.CallExpr); ok {
+									if se, ok := ast.Unparen(c.Fun).(*ast.SelectorExpr); ok && se.Sel.Name == "IsZero" {
+										if us, ok := ast.Unparen(se.X).(*ast.SelectorExpr); ok && info.Uses[us.Sel] == types.Object(unc) {
+											asksPending = true
+										}
+									}
+								}
+								return true
+							})
+						}
+						if !asksPending {
+							return true
+						}
+						// inside: X.Matches = <value that comes from StreamIDs>
+						fromDef := map[types.Object]bool{}
+						ast.Inspect(ifs.Body, func(y ast.Node) bool {
+							switch st := y.(type) {
+							case *ast.AssignStmt:
+								for _, rh := range st.Rhs {
+									if c, ok := ast.Unparen(rh).(*ast.CallExpr); ok {
+										if fn := p.Callee(f.Pkg, c); fn != nil && fn.Name() == "StreamIDs" {
+											for _, l := range st.Lhs {
+												if o := identObj(info, l); o != nil {
+													fromDef[o] = true
+												}
+												if ls, ok := ast.Unparen(l).(*ast.SelectorExpr); ok && info.Uses[ls.Sel] == types.Object(matches) {
+													refreshed = true
+												}
 											}
 										}
 									}
-									return true
-								})
-							}
-						}
-						return true
-					})
-					for _, part := range condParts {
-						ast.Inspect(part, func(y ast.Node) bool {
-							if c, ok := y.(*ast.CallExpr); ok {
-								if se, ok := ast.Unparen(c.Fun).(*ast.SelectorExpr); ok && se.Sel.Name == "IsZero" {
-									if us, ok := ast.Unparen(se.X).(*ast.SelectorExpr); ok && info.Uses[us.Sel] == types.Object(unc) {
-										asksPending = true
+								}
+								for i, l := range st.Lhs {
+									if ls, ok := ast.Unparen(l).(*ast.SelectorExpr); ok && info.Uses[ls.Sel] == types.Object(matches) && i < len(st.Rhs) {
+										if fromDef[identObj(info, st.Rhs[i])] {
+											refreshed = true
+										}
+									}
+								}
+							case *ast.IfStmt:
+								if as, ok := st.Init.(*ast.AssignStmt); ok && len(as.Rhs) == 1 {
+									if c, ok := ast.Unparen(as.Rhs[0]).(*ast.CallExpr); ok {
+										if fn := p.Callee(f.Pkg, c); fn != nil && fn.Name() == "StreamIDs" {
+											for _, l := range as.Lhs {
+												if o := identObj(info, l); o != nil {
+													fromDef[o] = true
+												}
+											}
+										}
 									}
 								}
 							}
 							return true
 						})
-					}
-					if !asksPending {
 						return true
-					}
-					// inside: X.Matches = <value that comes from StreamIDs>
-					fromDef := map[types.Object]bool{}
-					ast.Inspect(ifs.Body, func(y ast.Node) bool {
-						switch st := y.(type) {
-						case *ast.AssignStmt:
-							for _, rh := range st.Rhs {
-								if c, ok := ast.Unparen(rh).(*ast.CallExpr); ok {
-									if fn := p.Callee(f.Pkg, c); fn != nil && fn.Name() == "StreamIDs" {
-										for _, l := range st.Lhs {
-											if o := identObj(info, l); o != nil {
-												fromDef[o] = true
-											}
-											if ls, ok := ast.Unparen(l).(*ast.SelectorExpr); ok && info.Uses[ls.Sel] == types.Object(matches) {
-												refreshed = true
-											}
-										}
-									}
-								}
+					})
+					return refreshed
+				}
+				refreshed := refreshedIn(f)
+				if !refreshed && f.Lit == nil && f.Decl != nil && !ast.IsExported(f.Decl.Name.Name) {
+					// the text is written by a helper: the refresh may stand in every function that calls it
+					if fobj, _ := info.Defs[f.Decl.Name].(*types.Func); fobj != nil {
+						sites, good := 0, 0
+						for _, g := range p.FnList {
+							if g.Pkg != f.Pkg || g.Body() == nil {
+								continue
 							}
-							for i, l := range st.Lhs {
-								if ls, ok := ast.Unparen(l).(*ast.SelectorExpr); ok && info.Uses[ls.Sel] == types.Object(matches) && i < len(st.Rhs) {
-									if fromDef[identObj(info, st.Rhs[i])] {
-										refreshed = true
-									}
-								}
-							}
-						case *ast.IfStmt:
-							if as, ok := st.Init.(*ast.AssignStmt); ok && len(as.Rhs) == 1 {
-								if c, ok := ast.Unparen(as.Rhs[0]).(*ast.CallExpr); ok {
-									if fn := p.Callee(f.Pkg, c); fn != nil && fn.Name() == "StreamIDs" {
-										for _, l := range as.Lhs {
-											if o := identObj(info, l); o != nil {
-												fromDef[o] = true
-											}
-										}
+							for _, c := range callsIn(g.Body()) {
+								if p.Callee(g.Pkg, c) == fobj {
+									sites++
+									if refreshedIn(g) {
+										good++
 									}
 								}
 							}
 						}
-						return true
-					})
-					return true
-				})
+						refreshed = sites > 0 && sites == good
+					}
+				}
 				r.Check(refreshed, rule, f.Key()+" writes a definition from Matches", p.Pos(loop), "Matches is taken from the definition while the tag is pending", "the definition text is rebuilt from Matches and nothing refreshes Matches from the definition when the tag is not decided: for a tag whose list was just replaced Matches is empty, so removing ONE stream rewrites the definition to `id:-1` — all streams of the list are gone and the call reports success")
 			}
 			r.Floor(rule, 1, n)
